@@ -291,8 +291,8 @@ func UnconditionalIPBlockContribution(p *core.Program, r *core.Report, rule stri
 		var extra []string
 		for _, a := range facts.Atoms(f) {
 			s2 := facts.StripVersions(a)
-			if strings.HasPrefix(s2, "nil:") && (strings.HasSuffix(s2, ".IPBlock") || strings.HasSuffix(s2, "err")) {
-				continue
+			if strings.HasPrefix(s2, "nil:") && (strings.HasSuffix(s2, ".IPBlock") || !strings.ContainsAny(s2[4:], ".[(")) {
+				continue // the ipBlock test itself, or the nil test of a plain local (the error of the parse)
 			}
 			// an already-seen test on a boolean map is a de-duplication of equal elements, judged by rule C14-e (key completeness)
 			if strings.HasPrefix(s2, "b:") && strings.Contains(s2, "[") && strings.HasSuffix(s2, "]") && facts.Entails(f, facts.Not{X: facts.Atom(a)}) {
